@@ -65,3 +65,4 @@ package keeper
 //@       && bal(moduleAddr(module), amount.Denom) == old(bal(moduleAddr(module), amount.Denom)) - amount.Amount && amount.Amount > 0
 //@   ensures [C06.did.bankframe] forall a addr, d string :: (a != moduleAddr(module) && a != moduleAddr("did")) || d != amount.Denom ==> bal(a, d) == old(bal(a, d))
 //@   ensures [C06.did.zero] amount.Amount == 0 ==> err == nil && (forall a addr, d string :: bal(a, d) == old(bal(a, d))) && DidBalances[did] == old(DidBalances[did]) && (has(DidBalances, did) <==> old(has(DidBalances, did)))
+//@   ensures [C06.did.repinv] has(DidBalances, did) ==> DidBalances[did].Did == did
